@@ -81,6 +81,8 @@ def run_case(case):
 
     def bad(clause, detail, gap=None):
         sig = {"check": "mle", "family": fam, "clause": clause}
+        if case.get("fix_param"):
+            sig["one_parameter_fixed"] = True
         if fam == "WeibullDistribution":
             sig["gamma_free"] = gamma_free
             sig["beta_true_below_1"] = bool(th["beta"] < 1)
@@ -95,6 +97,8 @@ def run_case(case):
         fixed = {"gamma": th["gamma"]}
     if fam == "GammaS":
         fixed = {"loc": 0.0}
+    if case.get("fix_param"):   # one further parameter fixed at its generating value (likelihood clauses still apply)
+        fixed = dict(fixed, **{case["fix_param"]: th[case["fix_param"]]})
 
     def start_for(c):
         if startk == "default":
@@ -124,6 +128,9 @@ def run_case(case):
             bad("exception", {"type": type(e).__name__, "msg": str(e)[:160], "scale_factor": c})
             continue
         res[c] = p
+        for k_, v_ in fx.items():
+            if not abs(p[k_] - v_) <= 1e-12 * max(abs(v_), 1e-300):
+                bad("fixed_parameter_changed", {"param": k_, "fixed": v_, "got": p[k_], "scale_factor": c})
         if not admissible(fam, p):
             bad("inadmissible", {"params": p, "scale_factor": c})
             continue
@@ -164,8 +171,8 @@ def main(ctx):
                        "ScipyDistribution carriers restricted to regular ones (gumbel_r; gamma with f_loc=0)"]
     q = ctx.quick
     cases = []
-    ns = (100, 1000) if q else (100, 1000, 5000)
-    seeds = (1,) if q else (1, 2, 3)
+    ns = (100, 1000, 5000)
+    seeds = (1, 2) if q else (1, 2, 3, 4, 5)
     for fam, grid in GRID.items():
         for th in grid:
             for n, seed, st in itertools.product(ns, seeds, ("default", "user")):
@@ -175,6 +182,12 @@ def main(ctx):
                         pass
                     cases.append({"family": fam, "theta": th, "n": n, "seed": seed, "start": st, "fix_gamma": fg,
                                   "scales": [0.5, 3.0]})
+                    if st == "default" and seed == 1 and fam not in ("LogNormalNormFitDistribution",) and (fg or fam != "WeibullDistribution"):
+                        for pn in zoo.FAMILIES[fam][1]:
+                            if pn == "gamma" or (fam == "GammaS" and pn == "loc"):
+                                continue
+                            cases.append({"family": fam, "theta": th, "n": n, "seed": seed, "start": st, "fix_gamma": fg,
+                                          "scales": [0.5, 3.0], "fix_param": pn})
     for c in cases:
         ctx.axis("family", zoo.SHORT[c["family"]])
     cases.sort(key=lambda c: -c["n"])
